@@ -108,8 +108,10 @@ def effect_plain(eid, shader='phong'):
 
 def effect_textured(eid, imgid):
     return ('<effect id="%s"><profile_COMMON>'
+            '<newparam sid="%s-f0"><float>0.5</float></newparam>'
             '<newparam sid="%s-surf"><surface type="2D"><init_from>%s</init_from><format>A8R8G8B8</format></surface></newparam>'
             '<newparam sid="%s-samp"><sampler2D><source>%s-surf</source><minfilter>LINEAR</minfilter></sampler2D></newparam>'
+            '<newparam sid="%s-samp2"><sampler2D><source>%s-surf</source></sampler2D></newparam>'
             '<newparam sid="%s-f"><float>2</float></newparam>'
             '<technique sid="common"><lambert>'
             '<ambient><color>0.5 0.5 0.5 1</color></ambient>'
@@ -118,11 +120,12 @@ def effect_textured(eid, imgid):
             '</lambert></technique></profile_COMMON>'
             '<extra><technique profile="GOOGLEEARTH"><double_sided>1</double_sided></technique>'
             '<technique profile="FCOLLADA"><bump><texture texture="%s-samp" texcoord="UV0"/></bump></technique></extra>'
-            '</effect>' % (eid, eid, imgid, eid, eid, eid, eid, eid, eid))
+            '</effect>' % (eid, eid, eid, imgid, eid, eid, eid, eid, eid, eid, eid, eid))
 
 
 def material(mid, eid):
-    return '<material id="%s" name="%s"><instance_effect url="#%s"/></material>' % (mid, mid, eid)
+    # the name is free text: it differs from every id
+    return '<material id="%s" name="%s-label"><instance_effect url="#%s"/></material>' % (mid, mid, eid)
 
 
 def image(iid, path):
